@@ -33,7 +33,11 @@ Put(f, k, v) == [x \in DOMAIN f \cup {k} |-> IF x = k THEN v ELSE f[x]]
 Get(f, k) == IF k \in DOMAIN f THEN f[k] ELSE 0
 Busy(c) == c \in DOMAIN pend /\ pend[c].op # "none"
 CauseOf(t) == t \in DOMAIN cause /\ cause[t]
-None == [op |-> "none", t |-> "", was |-> FALSE, rem |-> FALSE, sw |-> FALSE, inc0 |-> 0]
+None == [op |-> "none", t |-> "", was |-> FALSE, rem |-> FALSE, sw |-> FALSE, inc0 |-> 0, ts |-> <<>>]
+SeqSet(q) == {q[i] : i \in 1..Len(q)}
+(* "ReconnectMany": the collector's Reconnect RPC (collector.Server in front of Manager.Reconnect) with a list of   *)
+(* target names: every known one is reconnected, the call fails (NotFound) iff some name is not managed             *)
+Many(e) == e.op = "ReconnectMany"
 
 TInit == l = 1 /\ active = {} /\ disc = <<>> /\ pend = <<>> /\ inc = <<>> /\ rt = <<>> /\ cause = <<>> /\ TLCSet(1, 1)
 
@@ -46,8 +50,9 @@ TCfg == St("tcfg") /\ rt' = Put(rt, Ev.t, Ev.rt) /\ UNCHANGED <<active, disc, pe
 TInv ==
     /\ St("inv") /\ ~Busy(Ev.c)
     /\ LET overlapRemove == \E c \in DOMAIN pend : pend[c].op = "Remove" /\ pend[c].t = Ev.t
-           rec == [op |-> Ev.op, t |-> Ev.t, was |-> Ev.t \in active, rem |-> Ev.op = "Add" /\ overlapRemove, sw |-> FALSE,
-                   inc0 |-> Get(inc, Ev.t)]
+           rec == [op |-> Ev.op, t |-> Ev.t, was |-> IF Many(Ev) THEN SeqSet(Ev.ts) \subseteq active ELSE Ev.t \in active,
+                   rem |-> Ev.op = "Add" /\ overlapRemove, sw |-> FALSE,
+                   inc0 |-> Get(inc, Ev.t), ts |-> IF Many(Ev) THEN Ev.ts ELSE <<>>]
            \* a Remove beginning while an Add of the same target is in progress overlaps it too
            marked == [c \in DOMAIN pend |-> IF Ev.op = "Remove" /\ pend[c].op = "Add" /\ pend[c].t = Ev.t
                                             THEN [pend[c] EXCEPT !.rem = TRUE] ELSE pend[c]] IN
@@ -56,7 +61,9 @@ TInv ==
           THEN active' = active \cup {Ev.t} /\ disc' = Put(disc, Ev.t, D0) /\ inc' = Put(inc, Ev.t, Get(inc, Ev.t) + 1)
           ELSE UNCHANGED <<active, disc, inc>>
        \* a Reconnect or Remove may end the running session of its target
-       /\ cause' = IF Ev.op \in {"Reconnect", "Remove"} THEN Put(cause, Ev.t, TRUE) ELSE cause
+       /\ cause' = IF Ev.op \in {"Reconnect", "Remove"} THEN Put(cause, Ev.t, TRUE)
+                   ELSE IF Many(Ev) THEN [x \in DOMAIN cause \cup SeqSet(Ev.ts) |-> IF x \in SeqSet(Ev.ts) THEN TRUE ELSE cause[x]]
+                   ELSE cause
     /\ UNCHANGED rt
 
 (* silent: the overlapping Remove has wound the old session down, the Add   *)
@@ -79,7 +86,9 @@ TRet ==
        /\ active' = IF Ev.op = "Remove" /\ Get(inc, Ev.t) = p.inc0 THEN active \ {Ev.t} ELSE active
     /\ pend' = Put(pend, Ev.c, None)
     \* a Reconnect/Remove still in progress when the previous Reset was made may be what ends the next session
-    /\ cause' = IF Ev.op \in {"Reconnect", "Remove"} THEN Put(cause, Ev.t, TRUE) ELSE cause
+    /\ cause' = IF Ev.op \in {"Reconnect", "Remove"} THEN Put(cause, Ev.t, TRUE)
+                ELSE IF Many(Ev) THEN LET q == pend[Ev.c].ts IN [x \in DOMAIN cause \cup SeqSet(q) |-> IF x \in SeqSet(q) THEN TRUE ELSE cause[x]]
+                ELSE cause
     /\ UNCHANGED <<disc, inc, rt>>
 
 TCb ==
